@@ -3,6 +3,7 @@ package main
 // Harness primitives (v*) and models of library functions.
 
 import (
+	"encoding/json"
 	"fmt"
 	"go/types"
 	"math"
@@ -65,7 +66,7 @@ func (x *Exec) vector(m Model) []string {
 			out = append(out, fmt.Sprintf("f:%016x", evalTerm(in.Term, m, memo)))
 		case "bytes", "oneof":
 			out = append(out, "s:"+hexOf(x.strUnder(in.Str, m, memo)))
-		case "choice", "rot":
+		case "choice":
 			out = append(out, "c:"+in.Conc)
 		}
 	}
@@ -351,6 +352,10 @@ func registerIntrinsics(e *Engine) {
 		x.mapFree = t.IsTrue()
 		return nil
 	})
+	reg("vMapOrderSite", func(x *Exec, a []Value) Value {
+		x.mapSite = cint(x, a[0])
+		return nil
+	})
 	reg("vParam", func(x *Exec, a []Value) Value {
 		n := cstr(x, a[0])
 		return mkBV(64, uint64(x.eng.params[n])) // absent parameters read as 0
@@ -582,7 +587,7 @@ func registerLibModels(e *Engine) {
 		return x.opaqueError()
 	})
 	for _, n := range []string{"log.Printf", "log.Println", "log.Print", "fmt.Println", "fmt.Printf", "fmt.Print",
-		"(*log.Logger).Printf", "(*log.Logger).Println", "fmt.Fprintf", "fmt.Fprintln", "fmt.Fprint"} {
+		"(*log.Logger).Printf", "(*log.Logger).Println"} {
 		nn := n
 		always(nn, func(x *Exec, a []Value) Value {
 			if strings.HasPrefix(nn, "fmt.") {
@@ -591,6 +596,74 @@ func registerLibModels(e *Engine) {
 			return nil
 		})
 	}
+	// fmt.Fprint* into a *bytes.Buffer / *strings.Builder is modelled (the text may be the subject);
+	// any other writer swallows the output
+	fprint := func(kind string) func(x *Exec, a []Value) Value {
+		return func(x *Exec, a []Value) Value {
+			w := a[0].(*IfaceVal)
+			var text *StrVal
+			switch kind {
+			case "f":
+				f := a[1].(*StrVal)
+				if f.IsConcrete() {
+					text = x.sprintf(f.Conc(), sliceElems(a[2]))
+				} else {
+					text = &StrVal{Opaque: true}
+				}
+			default:
+				args := sliceElems(a[1])
+				text = mkStr("")
+				for i, ar := range args {
+					s, ok := x.sprintOperand(ar, 'v')
+					if !ok {
+						text = &StrVal{Opaque: true}
+						break
+					}
+					if i > 0 && (kind == "ln" || (!isStrIface(args[i-1]) && !isStrIface(ar))) {
+						text = x.concat(text, mkStr(" "))
+					}
+					text = x.concat(text, s)
+				}
+				if kind == "ln" && !text.Opaque {
+					text = x.concat(text, mkStr("\n"))
+				}
+			}
+			if w.T != nil {
+				ts := w.T.String()
+				if ts == "*bytes.Buffer" || ts == "*strings.Builder" {
+					if m := x.eng.methodByName(w.T, "WriteString"); m != nil {
+						x.callFunction(m, []Value{w.V, text}, nil)
+					}
+				}
+			}
+			return TupleVal{mkBV(64, 0), nilIface}
+		}
+	}
+	always("fmt.Fprintln", fprint("ln"))
+	always("fmt.Fprintf", fprint("f"))
+	always("fmt.Fprint", fprint(""))
+	always("encoding/json.Unmarshal", func(x *Exec, a []Value) Value {
+		data := a[0].(*SliceVal)
+		buf := make([]byte, data.Len)
+		for i := range buf {
+			t := data.At(i).(*Term)
+			if !t.IsConst() {
+				panic(unsupported("json.Unmarshal of symbolic bytes"))
+			}
+			buf[i] = byte(t.Val)
+		}
+		target := a[1].(*IfaceVal)
+		pt, ok := target.T.(*types.Pointer)
+		if !ok || !isStringType(pt.Elem()) {
+			panic(unsupported("json.Unmarshal into " + target.T.String()))
+		}
+		var sres string
+		if err := json.Unmarshal(buf, &sres); err != nil {
+			return x.errorValue(err.Error())
+		}
+		x.deref(target.V.(*PtrVal)).Store(mkStr(sres))
+		return nilIface
+	})
 	always("log.Fatalf", func(x *Exec, a []Value) Value { panic(&pathEnd{"log.Fatalf"}) })
 	always("log.Fatalln", func(x *Exec, a []Value) Value { panic(&pathEnd{"log.Fatalln"}) })
 	always("log.Fatal", func(x *Exec, a []Value) Value { panic(&pathEnd{"log.Fatal"}) })
